@@ -26,7 +26,8 @@ RULE = ("lattice cases (every input residue name x chain position x force field)
         "hetero/water tails), the cyclic peptide 5vav with its closing bond stretched across the 1.35 A threshold, "
         "--neutraln/--neutralc. Non-trivial: terminal or non-default-state or nucleic residue or a stressor scheme; "
         "distinct = (force field, final state, position, scheme)"
-        ' Round-2 additions: long stretches of the local real proteins; pKa route with a stubbed pKa source (formal charges of titrated states).')
+        ' Round-2 additions: long stretches of the local real proteins; pKa route with a stubbed pKa source (formal charges of titrated states).'
+        ' Round-3/4 additions: chain ends marked by TER / a new chain id may lack OXT.')
 ASSUMPTIONS = ["'fully parameterised' = every atom of the residue received parameters (none reported unassigned)", "chain ends: generator ground truth (TER / chain id / OXT)",
                "formal charges: ARG/LYS/HIP +1, ASP/GLU/CYM/TYM -1, charged N-terminus +1, charged C-terminus -1"]
 MIN = {"quick": {"residues_checked": 1500, "terminal_residues_checked": 500, "strands_checked": 8, "totals_checked": 70,
